@@ -154,7 +154,7 @@ def check_jdd(res, t, keys, ws):
         res.nontrivial.add(("jdd", keys, ws))
 
 
-def check_net(res, tset, N, pl):
+def check_net(res, tset, N, pl, variant=None):
     from gcmpy.tools.joint_excess_joint_degree import JointExcessJointDegree
     from gcmpy.tools.joint_excess_joint_degree_matrices import JointExcessJointDegreeMatrices
     from gcmpy.tools.joint_excess_from_ejk import JointExcessFromEjk
@@ -163,7 +163,7 @@ def check_net(res, tset, N, pl):
     from gcmpy.names.tools_names import ToolsNames as TN
     tops = netgen.TOPOLOGY_SETS[tset]
     names = [t[0] for t in tops]
-    net, jds, rows = netgen.build_network(N, tops, pl)
+    net, jds, rows = netgen.build_network(N, tops, pl, relabel=variant)
     desc = {"tset": tset, "N": N, "placement": [[k, list(vs)] for k, vs, _ in pl]}
     res.states += 1
     # network histogram
@@ -235,6 +235,8 @@ def run_instance(inst, tier):
     else:
         for pl in inst["placements"]:
             check_net(res, inst["tset"], inst["N"], pl)
+            if len(pl) <= 4:
+                check_net(res, inst["tset"], inst["N"], pl, "reversed-insertion")
             if len(res.violations) >= 10:
                 return res
     return res
